@@ -37,12 +37,12 @@ def run(ctx):
             ok, why = False, "first decision of the solver entry is not a read of the node's cut flag"
             break
         idx = p.events.index(first_branch)
-        before = [e for e in real_calls(p) if p.events.index(e) < idx and e["callee"] not in S.flag_readers]
+        before = [e for e in real_calls(p) if p.events.index(e) < idx and e["callee"] not in S.flag_readers and S.effectful(e)]
         if before:
             ok, why = False, "call to %s before the cut-flag guard" % before[0]["callee"]
             break
         if first_branch["value"] is True:
-            after = [e for e in real_calls(p) if p.events.index(e) > idx]
+            after = [e for e in real_calls(p) if p.events.index(e) > idx and S.effectful(e)]
             if after or p.end != "return" or not is_none(p.ret):
                 ok, why = False, "with the flag set the entry does not return None immediately"
                 break
